@@ -1,5 +1,5 @@
 """property id -> rules"""
-from rules import task_constraints
+from rules import task_constraints, tasks, optional
 from sa.selftest import self_test_rule
 
 NOTES = ("Every check decides structural clauses (necessary conditions) of its property from /repo's source as parsed on "
@@ -8,6 +8,37 @@ NOTES = ("Every check decides structural clauses (necessary conditions) of its p
 NOT_APPLICABLE = {}
 
 PROPERTIES = {
+    "C06": {
+        "rules": optional.RULES,
+        "thorough": [self_test_rule("C06")],
+        "level_text": "Inertness (taint) analysis over the extracted term IR: every occurrence of a time of a possibly "
+                      "unscheduled task or unselected worker (task start/end/duration, busy interval bounds) in any term "
+                      "emitted by any constraint, indicator, objective constructor or by the solver initialisation is "
+                      "classified by its guard context; unguarded classes must be in a reviewed benign table or the "
+                      "known-findings file. Plus the truth tables of the optional-task rules and the If(scheduled, rules, "
+                      "moved-to-the-past) shape of every task class. Quantifies over all problems and schedules.",
+        "level_note": "Decides guard presence and shape, not the behaviour; the benign table (rules/optional.py) assumes "
+                      "non-negative interval bounds / due dates and is justified entry by entry. Trusted: z3, pydantic. "
+                      "'Schedules of the other tasks are exactly those of the problem without the task' follows from "
+                      "inertness of every consumer and is argued, not machine-checked.",
+        "explanation": "Static taint analysis of optional-entity time leaves over all emitted z3 terms (67 constructors + "
+                       "solver initialisation), guard classes M/G1/G2/G3/G5/T vs U; truth tables for the optional-task rules.",
+    },
+    "C01": {
+        "rules": tasks.RULES,
+        "thorough": [self_test_rule("C01")],
+        "level_text": "For every Task subclass and every configuration (optional, release/due dates, min/max/allowed "
+                      "durations) the assertions built by the constructor chain are reconstructed and shown to entail each "
+                      "timing obligation of a scheduled task; the solver initialisation is shown to bound every task end by "
+                      "the horizon and to hand every element's assertion list, unfiltered, to the solver. Holds for all "
+                      "parameter values and all schedules at once.",
+        "level_note": "Decides R-TASK-OBLIG, R-SET-ASSERTIONS, R-HORIZON, R-DRAIN on the extracted term IR (truth tables over "
+                      "canonical linear atoms). Trusted: z3 returns models of the asserted conjunction; pydantic enforces the "
+                      "declared field constraints; extraction of model values into the solution is decided under C11.",
+        "explanation": "Static analysis of task.py / solver.py / problem.py: per class and configuration the emitted z3 terms "
+                       "are reconstructed from the AST and each obligation (start>=0, end-start==duration, duration bounds, "
+                       "release date, deadline, end<=horizon, complete drain of assertion lists) is decided on them.",
+    },
     "C03": {
         "rules": task_constraints.RULES,
         "thorough": [self_test_rule("C03")],
